@@ -148,7 +148,33 @@ def cases(tier):
     for n in (3, 4, 5):
         out.append({"t": "pyramid", "n": n})
         out.append({"t": "dipyramid", "n": n})
+    # the same request again after the caller resized / moved the shape it was given: families hand out fresh shapes
+    for fam, args in (("Family323Plus", [2.0, 2.0]), ("Family323Plus", [1.0, 3.0]), ("Family423", [1.5, 2.5]), ("Family523", [1.0, 3.0]), ("TruncatedTetrahedronFamily", [0.5]), ("RegularNGonFamily", [5]), ("UniformPrismFamily", [5]), ("UniformAntiprismFamily", [4]), ("UniformPyramidFamily", [4]), ("UniformDipyramidFamily", [5])):
+        out.append({"t": "repeat", "fam": fam, "args": args})
     return out
+
+
+def repeat_after_mutation(rep, label, case, get):
+    """get() three times; the shapes handed out earlier are resized and moved in between."""
+    first = get()
+    V0 = np.array(first.vertices, float).copy()
+    rep.transitions += 2
+    rep.nontrivial += 1
+    for step, mutate in enumerate((lambda o: setattr(o, "volume" if hasattr(o, "volume") else "area", 3.0 * float(o.volume if hasattr(o, "volume") else o.area)), lambda o: setattr(o, "centroid", np.array([1.0, -2.0, 3.0]) if hasattr(o, "volume") else np.asarray(o.centroid, float) + np.array([1.0, -2.0, 0.0])))):
+        try:
+            mutate(first)
+        except Exception as ex:
+            rep.violation("family", label, "get_shape", "mutation-raised:" + type(ex).__name__, case, repr(ex))
+            return
+        again = get()
+        if again is first:
+            rep.violation("family", label, "get_shape", "same-object-handed-out-again", case, "%s returned the very object it returned before (which the caller has modified)" % label)
+            return
+        if not np.array_equal(np.asarray(again.vertices, float), V0):
+            rep.violation("family", label, "get_shape", "repeat-differs-after-caller-mutation", case, "after the caller modified the shape it was given (step %d), the same request returns different vertices (max |diff| %.3g)" % (step, float(np.max(np.abs(np.asarray(again.vertices, float) - V0))) if np.shape(again.vertices) == V0.shape else float("nan")))
+            return
+        first = again
+    rep.ok("repeat-equals-first")
 
 
 def param(fam, i, j, g):
@@ -236,6 +262,13 @@ def run_case(case):
                 return rep
         rep.ok("intersection")
         rep.sample({"case": case, "a": a, "c": c, "vertices": int(len(ref)), "separation": sep})
+        return rep
+    if t == "repeat":
+        fam = case["fam"]
+        try:
+            repeat_after_mutation(rep, fam, case, lambda: getattr(FAM, fam).get_shape(*case["args"]))
+        except Exception as ex:
+            rep.violation("family", fam, "get_shape", "raised:" + type(ex).__name__, case, repr(ex))
         return rep
     if t == "trunc-out":
         fam = case["fam"]
